@@ -395,23 +395,40 @@ Fixpoint add_back (fixed : asg) (ca : asg) : asg :=
 
 Inductive sres := SErr | SPanic | SFuel (p : plan) | SOk (p : plan).
 
-Record bal_out := { b_ca : asg; b_end : perform_end; b_reverted : bool; b_performed : bool }.
+(* everything stickyBalanceStrategy.balance has computed when it calls performReassignments *)
+Record prep := {
+  pr_prev : prev_t; pr_c2p : asg; pr_p2c : p2c_t;
+  pr_parts : list tp;        (* reassignable partitions *)
+  pr_s0 : st;                (* working state: members subject to reassignment *)
+  pr_fixed : asg;            (* fixedAssignments *)
+  pr_initializing : bool }.
 
-(* stickyBalanceStrategy.balance; the result is the map the caller (Plan) holds afterwards: in the "revert" branch
-   the local variable currentAssignment is rebound to a fresh copy, so neither the reverted state nor the fixed
-   assignments added back afterwards reach the caller's map *)
-Definition balance (fuel : nat) (fx : bool) (o : oracle) (ca : asg) (prev : prev_t) (sortedp una : list tp)
-           (sorted : list str) (c2p : asg) (p2c : p2c_t) (cpc : cpc_t) : bal_out :=
+(* stickyBalanceStrategy.balance up to the call of performReassignments *)
+Definition balance_prepare (o : oracle) (ca : asg) (prev : prev_t) (sortedp una : list tp)
+           (sorted : list str) (c2p : asg) (p2c : p2c_t) (cpc : cpc_t) : prep :=
   let initializing := match sorted with [] => true | m :: _ => len (ca_get ca m) =? 0 end in
   let '(ca1, cpc1, sorted1) := assign_all c2p p2c una ca cpc sorted in
   let sortedp1 := drop_nonparticipating p2c (akeys p2c) sortedp in
   let '(ca2, fixed) := split_fixed c2p p2c (akeys c2p) ca1 [] in
   let sorted2 := match fixed with [] => sorted1 | _ => sort_members ca2 end in
-  let pre := ca2 in
-  let '(s, performed, e) := perform fuel fx prev c2p p2c sortedp1
-       {| s_ca := ca2; s_cpc := cpc1; s_mov := []; s_sorted := sorted2; s_picks := o_picks o |} false in
-  let reverted := negb initializing && performed && (balance_score pre <=? balance_score (s_ca s)) in
-  {| b_ca := if reverted then s_ca s else add_back fixed (s_ca s); b_end := e; b_reverted := reverted; b_performed := performed |}.
+  {| pr_prev := prev; pr_c2p := c2p; pr_p2c := p2c; pr_parts := sortedp1;
+     pr_s0 := {| s_ca := ca2; s_cpc := cpc1; s_mov := []; s_sorted := sorted2; s_picks := o_picks o |};
+     pr_fixed := fixed; pr_initializing := initializing |}.
+
+Record bal_out := { b_ca : asg; b_end : perform_end; b_reverted : bool; b_performed : bool }.
+
+(* the rest of balance; the result is the map the caller (Plan) holds afterwards: in the "revert" branch the local
+   variable currentAssignment is rebound to a fresh copy, so neither the reverted state nor the fixed assignments
+   added back afterwards reach the caller's map *)
+Definition balance_finish (pr : prep) (res : st * bool * perform_end) : bal_out :=
+  let '(s, performed, e) := res in
+  let reverted := negb (pr_initializing pr) && performed &&
+                  (balance_score (s_ca (pr_s0 pr)) <=? balance_score (s_ca s)) in
+  {| b_ca := if reverted then s_ca s else add_back (pr_fixed pr) (s_ca s);
+     b_end := e; b_reverted := reverted; b_performed := performed |}.
+
+Definition run_perform (fuel : nat) (fx : bool) (pr : prep) : st * bool * perform_end :=
+  perform fuel fx (pr_prev pr) (pr_c2p pr) (pr_p2c pr) (pr_parts pr) (pr_s0 pr) false.
 
 (* ---------------- Plan ---------------- *)
 Fixpoint plan_add_all (p : plan) (m : str) (l : list tp) : plan :=
@@ -425,11 +442,13 @@ Fixpoint assemble (ca : asg) (p : plan) : plan :=
   | (m, l) :: r => assemble r (match l with [] => aset str_eqb m [] p | _ => plan_add_all p m l end)
   end.
 
-Record plan_out := { p_res : sres; p_reverted : bool; p_performed : bool }.
+(* p_reverted: the revert branch of balance() was taken; p_nfixed: number of members set aside as fixed *)
+Record plan_out := { p_res : sres; p_reverted : bool; p_performed : bool; p_nfixed : Z }.
 
-Definition sticky_plan_full (fuel : nat) (fx : bool) (o : oracle) (ms : list member) (ts : topics_t) : plan_out :=
+(* Plan up to the call of performReassignments; None = a member's user data does not decode *)
+Definition sticky_prepare (o : oracle) (ms : list member) (ts : topics_t) : option prep :=
   match prepopulate o ms with
-  | None => {| p_res := SErr; p_reverted := false; p_performed := false |}
+  | None => None
   | Some (ca0, prev) =>
     let fresh := match ca0 with [] => true | _ => false end in
     let '(c2p, p2c, ca1) := pot_members ts ms [] (p2c_init (all_tps ts)) ca0 in
@@ -437,10 +456,19 @@ Definition sticky_plan_full (fuel : nat) (fx : bool) (o : oracle) (ms : list mem
                {| k_ca := ca1; k_cpc := []; k_unvisited := akeys p2c; k_unassigned := [] |} in
     let una := k_unassigned k ++ order_by tp_eqb (o_plan_unvisited o) (k_unvisited k) in
     let sortedp := sort_partitions o (k_ca k) prev fresh p2c c2p in
-    let b := balance fuel fx o (k_ca k) prev sortedp una (sort_members (k_ca k)) c2p p2c (k_cpc k) in
-    let pl := assemble (b_ca b) [] in
-    {| p_res := match b_end b with PerfDone => SOk pl | PerfPanic => SPanic | PerfFuel => SFuel pl end;
-       p_reverted := b_reverted b; p_performed := b_performed b |}
+    Some (balance_prepare o (k_ca k) prev sortedp una (sort_members (k_ca k)) c2p p2c (k_cpc k))
+  end.
+
+Definition sticky_finish (pr : prep) (res : st * bool * perform_end) : plan_out :=
+  let b := balance_finish pr res in
+  let pl := assemble (b_ca b) [] in
+  {| p_res := match b_end b with PerfDone => SOk pl | PerfPanic => SPanic | PerfFuel => SFuel pl end;
+     p_reverted := b_reverted b; p_performed := b_performed b; p_nfixed := len (pr_fixed pr) |}.
+
+Definition sticky_plan_full (fuel : nat) (fx : bool) (o : oracle) (ms : list member) (ts : topics_t) : plan_out :=
+  match sticky_prepare o ms ts with
+  | None => {| p_res := SErr; p_reverted := false; p_performed := false; p_nfixed := 0 |}
+  | Some pr => sticky_finish pr (run_perform fuel fx pr)
   end.
 
 Definition sticky_plan (fuel : nat) (fx : bool) (o : oracle) (ms : list member) (ts : topics_t) : sres :=
